@@ -3,6 +3,7 @@ package main
 // `govc check <Cxx>`: decide one property.
 
 import (
+	"os/exec"
 	"fmt"
 	"os"
 	"path/filepath"
@@ -283,6 +284,13 @@ func cmdCheck(w *World, args []string, tier string, verbose bool) int {
 		"explanation":              "each obligation is a verification condition generated from the SSA of the real function in /repo under its contract; discharged = solver answered unsat for the negated goal",
 	}
 	ev.Assumptions = propAssumptions(prop)
+	// thorough tier: must-fail self-test of the machinery on the property's seeded changes
+	selftestRegressions := 0
+	if tier == "thorough" && os.Getenv("GOVC_SELFTEST_CHILD") == "" && exit == 0 {
+		results, regress := selfTest(prop)
+		ev.Coverage["selftest_seeded_changes"] = results
+		selftestRegressions = regress
+	}
 	if err := writeJSON(filepath.Join(evidenceDir, prop+".json"), ev); err != nil {
 		fmt.Fprintln(os.Stderr, "evidence:", err)
 		return 2
@@ -294,7 +302,89 @@ func cmdCheck(w *World, args []string, tier string, verbose bool) int {
 			fmt.Printf("  %-7s %-55s %s %s\n", o.Answer.Verdict, o.Name, o.Pos, truncate(o.Comment, 80))
 		}
 	}
+	if selftestRegressions > 0 {
+		fmt.Printf("SELFTEST-REGRESSION: %d seeded change(s) that this check used to reject are no longer rejected (see evidence.coverage.selftest_seeded_changes); the machinery, not the code, needs attention\n", selftestRegressions)
+		return 2
+	}
 	return exit
+}
+
+// selfTest applies every seeded change kept for the property (/verif/seeded/<prop>-<k>/patch.diff)
+// to a scratch copy of the working tree and runs the quick check on it: the check must report a
+// violation (seeds listed in /verif/seeded/expected_miss.txt excepted). A patch that no longer
+// applies is skipped.
+func selfTest(prop string) ([]map[string]any, int) {
+	var out []map[string]any
+	regress := 0
+	expectedMiss := map[string]string{}
+	if b, err := os.ReadFile(filepath.Join(verifDir, "seeded", "expected_miss.txt")); err == nil {
+		for _, l := range strings.Split(string(b), "\n") {
+			f := strings.SplitN(strings.TrimSpace(l), " ", 2)
+			if len(f) == 2 && !strings.HasPrefix(f[0], "#") {
+				expectedMiss[f[0]] = f[1]
+			}
+		}
+	}
+	dirs, _ := filepath.Glob(filepath.Join(verifDir, "seeded", prop+"-*"))
+	sort.Strings(dirs)
+	self, _ := os.Executable()
+	for _, d := range dirs {
+		seed := filepath.Base(d)
+		patch := filepath.Join(d, "patch.diff")
+		if _, err := os.Stat(patch); err != nil {
+			continue
+		}
+		rec := map[string]any{"seed": seed}
+		scratch, err := os.MkdirTemp("", "govc-selftest-")
+		if err != nil {
+			rec["outcome"] = "skipped: " + err.Error()
+			out = append(out, rec)
+			continue
+		}
+		run := func(dir string, name string, args ...string) (string, int) {
+			c := exec.Command(name, args...)
+			c.Dir = dir
+			c.Env = append(os.Environ(), "GOVC_SELFTEST_CHILD=1")
+			b, err := c.CombinedOutput()
+			code := 0
+			if err != nil {
+				code = 1
+				if ee, ok := err.(*exec.ExitError); ok {
+					code = ee.ExitCode()
+				}
+			}
+			return string(b), code
+		}
+		if _, code := run("/", "bash", "-c", fmt.Sprintf("cd %q && git ls-files -z | xargs -0 cp --parents -t %q && cp -f verif_contracts.go %q/ 2>/dev/null; true", repoDir, scratch, scratch)); code != 0 {
+			rec["outcome"] = "skipped: cannot copy the working tree"
+		} else if o, code := run(scratch, "patch", "-p1", "-s", "-i", patch); code != 0 {
+			rec["outcome"] = "skipped: patch does not apply to the current tree: " + truncate(strings.TrimSpace(o), 200)
+		} else {
+			o, code := run("/", self, "check", "--repo", scratch, "--verif", verifDir, prop)
+			caught := code == 1 && strings.Contains(o, "VIOLATION property="+prop+" ")
+			switch {
+			case caught:
+				rec["outcome"] = "rejected"
+				for _, l := range strings.Split(o, "\n") {
+					if strings.HasPrefix(l, "  obligation ") || strings.HasPrefix(l, "  translation/") {
+						rec["first_failing"] = truncate(strings.TrimSpace(l), 200)
+						break
+					}
+				}
+			case expectedMiss[seed] != "":
+				rec["outcome"] = "not rejected (expected: " + expectedMiss[seed] + ")"
+			case code == 0:
+				rec["outcome"] = "NOT REJECTED (regression)"
+				regress++
+			default:
+				rec["outcome"] = fmt.Sprintf("check failed to run (exit %d): %s", code, truncate(strings.TrimSpace(o), 300))
+				regress++
+			}
+		}
+		os.RemoveAll(scratch)
+		out = append(out, rec)
+	}
+	return out, regress
 }
 
 func matchKnown(known []KnownFinding, prop string, o *Obligation) *KnownFinding {
